@@ -848,3 +848,32 @@ func W1Pow(sink Sink) {
 		}
 	}
 }
+
+// W1First: every byte value as the FIRST byte of the data (after 0, 1 or 3 whitespace bytes)
+// followed by long continuations that would suit a token of another type: runs of digits and of
+// the bytes 0x3a..0x3f that share the digits' high nibble, literal tails, strings, containers,
+// fraction and exponent tails. A chunked reader that tests a whole word at once may never look at
+// the first byte on its own (seeded change C13r5-m2: ':0000000' read as an integer).
+var W1FirstConts = []string{"0000000000", "12345678,", "::::::::", "0000000", ";<=>?:;<=>", "99999999999999999999", "7777777.5", "1234567e5", "ull", "rue", "alse", "ull,1234", `"abcdefgh"`, "[1]", `{"a":1}`, "e5", ".5e3", "-1", "        1", "", "00000000" + "00000000"}
+
+func W1First(sink Sink) {
+	c := &h.Case{Family: "W1Fb"}
+	pres := []string{"", " ", "\n\t "}
+	c.DescFn = func(c *h.Case) string {
+		return fmt.Sprintf("whitespace prefix %q, first byte 0x%02x, continuation %q", pres[c.P[0]], c.P[1], W1FirstConts[c.P[2]])
+	}
+	buf := make([]byte, 0, 64)
+	for pi, pre := range pres {
+		for b := 0; b < 256; b++ {
+			for ci, cont := range W1FirstConts {
+				buf = append(buf[:0], pre...)
+				buf = append(buf, byte(b))
+				buf = append(buf, cont...)
+				c.Input = buf
+				c.Desc = ""
+				c.P = [4]int{pi, b, ci, 0}
+				sink(c)
+			}
+		}
+	}
+}
